@@ -762,7 +762,9 @@ class TPAnalysis:
         for timeout in ('<', '>'):
             dom = TPDomain(dict(timeout_sign=timeout))
             res = run_paths(self.facts, f, dom)
-            conds = loop_conds(self.facts, {g.name for g in self.facts.fns if g.d.get('class') == TP})
+            # loops of the pool's member functions and of the file-local helpers of its translation unit (a `joinAndDeleteAll(std::list<Thread*>&)`)
+            tu_files = {g.file for g in self.facts.fns if g.d.get('class') == TP and (g.file or '').endswith('.cpp')}
+            conds = loop_conds(self.facts, {g.name for g in self.facts.fns if g.d.get('class') == TP or (not g.d.get('class') and not g.d.get('lambda') and g.file in tu_files)})
             for P, E in res:
                 if P.end in ('throw', 'noreturn'): continue          # a failed assert / a defensive throw: exception paths are not modelled (§15)
                 ws = [e for e in E if e.kind == 'write' and e.obj == 'm_isRunning']
